@@ -8,6 +8,10 @@ import IpaVerif.Model.SeqJoin
   c15.try <w> <n> <errs> <op>…  seq_try_join_all; ops `r<i>`, `p` (one poll of the TryCollect future)
   c15.par <n> <errs> <op>…      parallel_join (futures::try_join_all); ops `r<i>`, `p`
   c15.tryp <w> <n> <errs> <op>… seq_join(w, source).try_collect() over a source that may be Pending; ops `s<k>`, `r<i>`, `p`
+  c15.hint <try|ctx|par> <shape> <w> <n> <d> <polls>   seq_try_join_all / SeqJoin::try_join / parallel_join over an
+                             iterator whose size_hint lower bound is below the number of items (`exact`, `filter`,
+                             `flatmap`, `takewhile`, `chain<k>`); task k is ready once tasks k+1..k+d were polled;
+                             response `lo=<size_hint lower bound>` then one token per poll of the returned future
 -/
 namespace IpaVerif.Driver.C15
 open IpaVerif.Util IpaVerif.SeqJoin
@@ -97,6 +101,21 @@ def parOps (errs : List Nat) : Option (List (Nat × Bool)) → List Nat → List
         parOps errs st' rdy ts (s!"{tryStr o}/{plus polled}" :: acc)
     | _ => none
 
+/-- `size_hint().0` of the iterator shapes used by `c15.hint`. -/
+def hintLower (shape : String) (n : Nat) : Option Nat :=
+  if shape = "exact" then some n
+  else if shape = "filter" ∨ shape = "flatmap" ∨ shape = "takewhile" then some 0
+  else if shape.startsWith "chain" then (shape.drop 5).toString.toNat?.map (min · n)
+  else none
+
+def hintRun (n d : Nat) : Nat → Option (State × List Nat) → List String → List String
+  | 0, _, acc => acc.reverse
+  | polls + 1, none, acc => hintRun n d polls none ("gone" :: acc)
+  | polls + 1, some (s, collected), acc =>
+    let (s', collected', o, polled) :=
+      tryPoll (fun _ => false) (depReady n d) (s.src.length + s.active.length + 2) s collected []
+    hintRun n d polls (if o == .pending then some (s', collected') else none) (s!"{tryStr o}/{plus polled}" :: acc)
+
 def join (l : List String) : String := String.intercalate " " l
 
 def handle (toks : List String) : Option String :=
@@ -127,6 +146,16 @@ def handle (toks : List String) : Option String :=
       match trypOps errs (some (State.new n w, [])) 0 [] ops [] with
       | some r => return join r
       | none => return "bad-request"
+  | ["c15.hint", api, shape, w, n, d, polls] => some <| Id.run do
+      let some w := w.toNat? | return "bad-request"
+      let some n := n.toNat? | return "bad-request"
+      let some d := d.toNat? | return "bad-request"
+      let some polls := polls.toNat? | return "bad-request"
+      let some lo := hintLower shape n | return "bad-request"
+      if api = "par" then return "judge"
+      if api ≠ "try" ∧ api ≠ "ctx" then return "bad-request"
+      -- the window comes from `active` (= w) only
+      return join (s!"lo={lo}" :: hintRun n d polls (some (seqTryJoinAllNew w n lo, [])) [])
   | "c15.par" :: n :: errs :: ops => some <| Id.run do
       let some n := n.toNat? | return "bad-request"
       let some errs := parseNatList errs | return "bad-request"
@@ -226,6 +255,25 @@ def oracle (toks : List String) (impl : String) : Option String :=
       -- dependencies within the window: the join must complete within 2n+1 polls
       if d + 1 ≤ w ∧ polls ≥ 2 * n + 1 then
         if items.length ≠ n ∨ !outs.contains "N" then return s!"fails no completion within {polls} polls although dependencies reach only {d} < window {w}"
+      return "holds"
+  | ["c15.hint", api, shape, w, n, d, polls] => some <| Id.run do
+      -- statement only: results in input order; dependencies that stay inside the window of `active`
+      -- items never block the join, whatever the iterator says about its length
+      let some w := w.toNat? | return "unknown"
+      let some n := n.toNat? | return "unknown"
+      let some d := d.toNat? | return "unknown"
+      let some polls := polls.toNat? | return "unknown"
+      let toks := impl.splitOn " "
+      let lo := (toks.headD "").drop 3 |>.toString
+      let outs := (toks.drop 1).map fun r => (r.splitOn "/").getD 0 ""
+      if outs.length ≠ polls then return "unknown"
+      let fin := outs.filter (· ≠ "P") |>.filter (· ≠ "gone")
+      let want := s!"OK:{plus (List.range n)}"
+      if fin.any (· ≠ want) then return s!"fails the join returned {fin.headD ""}, expected every result once in input order"
+      if fin.length > 1 then return "fails the join completed twice"
+      let bound := if api = "par" then 2 else 2 * n + 2
+      if (api = "par" ∨ d + 1 ≤ w) ∧ polls ≥ bound ∧ fin.isEmpty then
+        return s!"fails no completion within {polls} polls although every task only waits for the next {d} tasks to start and {w} may be active (iterator {shape}, size_hint lower bound {lo})"
       return "holds"
   | "c15.try" :: _ :: n :: errs :: ops => some <| Id.run do
       let some n := n.toNat? | return "unknown"
